@@ -30,10 +30,10 @@ ITEMS = [
  ("f T", [], "v"), ("fU", [], ["a", "b*"]), ("fV", [], 'q"uo\\te'), ("fW", ["startswith"], "pre"),
  ("fX", ["endswith"], "suf"), ("fY", [], ["a", 1]), ("fZ", ["neq"], ["a", "b"]), ("f1", ["exists"], True),
  ("f2", ["cased", "contains"], "Mi*d"), ("f3", [], "*"), ("f4", [], ""), ("f`5\\", [], "v"),
- ("f6", ["gte"], 1.5), ("f7", ["re"], "^a.*b$"), ("f8", ["cidr"], "192.168.129.0/25"), ("f9", ["all"], ["a", "b"]),
+ ("f6", ["gte"], 1.5), ("f7", ["re"], "^a.*b$"), ("f8", ["cidr"], "192.168.129.0/31"), ("f9", ["all"], ["a", "b"]),
  ("g1", ["contains"], "a*b"), ("g2", ["fieldref"], "other"), ("g3", ["re", "m", "s"], "x.y"), ("g4", ["cased", "startswith"], ["Aa", "Bb"]),
  ("g5", [], [1.5, "s"]), ("g6", ["neq", "contains"], "n"), ("g7", ["endswith", "all"], ["e1", "e2"]), ("g8", ["wide", "base64"], "A"),
- ("g9", [], "a\\\\*b"), ("h1", ["contains"], "c:\\x"),
+ ("g9", [], "a\\\\*b"), ("h1", ["contains"], "c:\\x"), ("h2", ["cidr"], "10.0.0.0/7"),
 ]
 KW = [["foo", "ba*r"], [1], ["single"], ["k1", 2]]
 out = ["----------------------------- MODULE RuleItems -----------------------------",
